@@ -38,6 +38,11 @@ func glob(t *starlark.Thread, fn *starlark.Builtin, include, exclude util.String
 	}
 
 	dir := util.Getwd(t)
+	// WalkDir does not follow a symbolic link that is given as its root: a package directory
+	// that is one (a project opened through a link) would look empty.
+	if resolved, err := filepath.EvalSymlinks(dir); err == nil {
+		dir = resolved
+	}
 
 	var matches []starlark.Value
 	err = filepath.WalkDir(dir, func(path string, d fs.DirEntry, err error) error {
